@@ -160,3 +160,13 @@ package arrayqueue
 //@   ensures [C12] atomic: result != nil ==> Seq(queue) == old(Seq(queue))
 //@   ensures [C11 C12] loaded: jarr_kind(bytes, elemof(queue.list.elements)) == 3 ==> len(Seq(queue)) == jarr_len(bytes, elemof(queue.list.elements)) && (forall i :: 0 <= i && i < len(Seq(queue)) ==> Seq(queue)[i] == jarr_at(bytes, i, elemof(queue.list.elements)))
 //@   ensures [C12] null: jarr_kind(bytes, elemof(queue.list.elements)) == 2 ==> len(Seq(queue)) == 0
+
+//@ -- String: starts with the container's name; reads only (C15, C18)
+//@ func Queue.String
+//@   requires Inv(queue)
+//@   modifies nothing
+//@   ensures [C15 C17 C18] hasPrefix(result, "ArrayQueue")
+//@   loop 1:
+//@     invariant 0 - 1 <= rangeindex && rangeindex < rangelen && (rangelen == 0 ==> rangeindex == 0 - 1) && rangelen >= 0
+//@     invariant isnil(values) || fresh(arr(values))
+//@     decreases rangelen - rangeindex
